@@ -34,7 +34,7 @@ func GetNextMineWindow(nextHeight uint32, distance uint32, parentTime int64, cur
 // GetCorrectMiner get the correct miner to mine a block after parent block
 func GetCorrectMiner(parent *types.Header, mineTime int64, mineTimeout int64, dm *deputynode.Manager) (common.Address, error) {
 	if mineTime < 1e10 {
-		panic("mineTime should be milliseconds")
+		return common.Address{}, ErrSmallerMineTime
 	}
 	passTime := mineTime - int64(parent.Time)*1000
 	if passTime < 0 {
